@@ -220,7 +220,7 @@ def advanceDyn : Nat → DState → Nat → Option (DState × String)
     match d.s.reqs[r]? with
     | none => none
     | some q =>
-      match step d.s (.newCfg noParams) with
+      match step d.s (.newIter r) with
       | none => none
       | some s0 =>
         match stores s0 d.s.cfgs.length (keysOf d q.cfg) with
